@@ -119,6 +119,17 @@ def falsify_program(ctx, case: Dict) -> bool:
                 op2 = list(op)
                 if op[0] in ("calculate", "purge", "recalculate", "remove", "calc_index") and op[1] is not None:
                     op2[1] = names[op[1]] if isinstance(op[1], int) else op[1]
+                if op[0] == "calc_index" and op2[1] is None:
+                    # calculate_index() for every member at once: each resolves the index against its own
+                    # candle list (members on other timeframes have shorter lists); only when everything
+                    # is calculated and the index exists in every list
+                    inds = list(h.indicators.values())
+                    shortest = min((len(i_.candles) for i_ in inds), default=0)
+                    if not inds or shortest == 0 or not all(all(i_.name in c.indicators for c in i_.candles) for i_ in inds):
+                        continue
+                    j = op[2] % shortest
+                    apply(h, None, ("calc_index", None, j if op[3] else j - shortest), ms)
+                    continue
                 if op[0] == "calc_index":
                     # only indices whose reading and predecessors are already computed
                     target = h.indicators.get(op2[1]) if op2[1] else None
@@ -257,6 +268,34 @@ def gen_shared_helper_program(rng, ctx) -> Dict:
     return {"specs": specs, "rows": rows, "init": rows, "ops": ops}
 
 
+def gen_mixed_tf_program(rng, ctx) -> Dict:
+    """Members on candle lists of different lengths (the raw candles and one or two collapsing
+    timeframes, in either registration order), fully calculated; then calculate_index for all
+    members at once with negative and positive indices, and a few other maintenance operations."""
+    n = rng.randint(30, 120)
+    rows = X.gen_rows(rng, n, late=0, step=60)
+    specs = []
+    tfs = [None, rng.choice(["T5", "T10"])] + ([rng.choice(["T15", "T3"])] if rng.random() < 0.3 else [])
+    rng.shuffle(tfs)
+    for j, tf in enumerate(tfs):
+        s = X.gen_spec(rng, rng.choice(["EMA", "SMA", "RSI", "ATR", "OBV", "MACD", "BBANDS", "STOCH"]), inputs=("close",))
+        s["round_value"] = 4
+        s["name_suffix"] = f"t{j}"
+        if tf:
+            s["tf"] = tf
+        specs.append(s)
+    ops = [("calculate", None)]
+    for _ in range(rng.randint(2, 5)):
+        r = rng.random()
+        if r < 0.7:
+            ops.append(("calc_index", None, -1 if rng.random() < 0.4 else rng.randrange(1000), rng.random() < 0.3))
+        elif r < 0.85:
+            ops.append(("calc_index", rng.randrange(len(specs)), -1 if rng.random() < 0.5 else rng.randrange(1000), rng.random() < 0.5))
+        else:
+            ops.append(("recalculate", rng.choice([None] + list(range(len(specs))))))
+    return {"specs": specs, "rows": rows, "init": rows, "ops": ops}
+
+
 def gen_prefix_program(rng, ctx) -> Dict:
     """Two members whose names are related by "<name>" / "<name>_<suffix>" (so the second one's
     helper series start with the first one's name), possibly on a shared collapsing timeframe;
@@ -304,6 +343,11 @@ def corr_ops(rng, ops: List, n_members: int) -> List:
         elif op[0] in ("calculate", "recalculate"):
             inited |= set(range(n_members)) if op[1] is None else {op[1]}
         if op[0] == "calc_index":
+            if op[1] is None:
+                if len(inited) < n_members:
+                    continue
+                out.append(("calc_index", None, -1 if op[2] == -1 else -(op[2] % 5) - 1))
+                continue
             if op[1] not in inited:
                 continue
             idx = -1 if (op[2] == -1 or rng.random() < 0.5) else (op[2] % 6 if op[3] else op[2] % 6 - 6)
@@ -351,6 +395,8 @@ def run(ctx: core.Ctx) -> int:
         programs.append(gen_shared_helper_program(rng, ctx))
     for _ in range(ctx.n(80, 900)):
         programs.append(gen_prefix_program(rng, ctx))
+    for _ in range(ctx.n(50, 500)):
+        programs.append(gen_mixed_tf_program(rng, ctx))
     hc = hxcorr.HxCorr(ctx, "C14")
     for c in programs:
         ctx.count("eval_falsifier")
